@@ -7,9 +7,7 @@ Require Import Nib.Gen.C16Facts.
 Definition current_facts : facts := {|
   f_sites := gate_sites;
   f_handlers := handlers;
-  f_check_permissions_accepts := check_permissions_accepts;
-  f_sender_has_permission_accepts := sender_has_permission_accepts;
-  f_validate_root_accepts := validate_root_accepts |}.
+  f_gate_functions := gate_functions |}.
 
 (** The current tree gates exactly the operations the model gates, each gate call precedes every
     state write of its function, and the gate functions have the modelled normal form.  A new gated
